@@ -418,6 +418,9 @@ func TestAdmin(t *testing.T) {
 	idx := 0
 	emit := func(kind string, c AdmCase) {
 		if Mine(idx) {
+			if pre, err := json.Marshal(c); err == nil {
+				cw.Begin(idx, kind, pre)
+			}
 			coq, stats := runAdmCase(c)
 			repl, _ := json.Marshal(c)
 			cw.Put(Case{Idx: idx, Kind: kind, Coq: coq, Repl: repl, Stats: stats})
